@@ -153,6 +153,8 @@ impl TimeoutFuture {
             r is Ready ==> (old(slf).deadline matches Some(d) && exists|now: Instant| clock_read(now) && #[trigger] nanos(now) >= nanos(d)),
             // otherwise -- unless it can never fire -- the task's own waker is left in the cell the timer's callback wakes
             (r is Pending && old(slf).deadline is Some) ==> *final(waker_cell) == Some(cx_waker(&*old(cx))),
+            // (never late either: Pending with a deadline means the clock value read at this poll was still before it)
+            (r is Pending && old(slf).deadline is Some) ==> exists|now: Instant| clock_read(now) && #[trigger] nanos(now) < nanos(old(slf).deadline->Some_0),
             final(slf).deadline == old(slf).deadline,
 //@ entry
         proof { broadcast use axiom_instant_cmp; }
